@@ -186,3 +186,128 @@ Proof.
   { exists 0. destruct w_facts as [E _]. rewrite E. cbn. auto. }
   specialize (H R). destruct w_facts as [_ [E _]]. rewrite E in H. cbn in H. lia.
 Qed.
+
+(* ------------------------------------------------------------------ *)
+(* Part 2: every configuration (any count, any number of fibers, any rounds).
+   The stacks of the barrier client have a small number of shapes. *)
+Definition slots_none (m : kmem) : Prop :=
+  forall t, slot_mutex m t = None /\ slot_wait m t = None /\ slot_mpmc m t = None.
+
+(* inside fiber_manager_yield (the continuation is below) *)
+Inductive yph : stack bc -> Prop :=
+| y_read : yph [YRead]
+| y_next st : yph [YNext st]
+| y_swread : yph [SwRead; YLoop]
+| y_swready : yph [SwReady; YLoop]
+| y_swdone : yph [SwDone; YLoop]
+| y_mread : yph [MRead; YLoop]
+| y_mflip : yph [MFlip; YLoop]
+| y_asleep : yph [Asleep; YLoop]
+| y_resume : yph [Resume; YLoop].
+
+(* the push part of wait_in_mpsc_queue *)
+Inductive wfr : frame bc -> Prop :=
+| w_saving : wfr (WSaving 0)
+| w_data : wfr (WData 0)
+| w_next n : wfr (WNext 0 n)
+| w_xchg n : wfr (WXchg 0 n)
+| w_link p n : wfr (WLink 0 p n).
+
+(* wake_from_mpsc_queue(waiters, c) *)
+Inductive kfr (c : Z) : frame bc -> Prop :=
+| k_head wc : kfr c (KHead 0 c wc)
+| k_next wc h : kfr c (KNext 0 c wc h)
+| k_sethead wc h nx : kfr c (KSetHead 0 c wc h nx)
+| k_data wc h nx : kfr c (KData 0 c wc h nx)
+| k_copy wc h d : kfr c (KCopy 0 c wc h d)
+| k_out wc h : kfr c (KOut 0 c wc h)
+| k_state wc f : kfr c (KState 0 c wc f)
+| k_ready wc f : kfr c (KReady 0 c wc f).
+
+Inductive Shape (count : Z) : stack bc -> Prop :=
+| sh_done : Shape count []
+| sh_start n : Shape count [Start; FC (BNext n 1)]
+| sh_fadd n k : Shape count [WFAdd 0 1 5; FC (BArrived n k)]
+| sh_wpush f n k : wfr f -> Shape count [f; FC (BRet n k 0)]
+| sh_wyield y n k : yph y -> Shape count (y ++ [FC (BRet n k 0)])
+| sh_k f n k : kfr (count - 1) f -> Shape count [f; FC (BRet n k 1)]
+| sh_kyield y wc n k : yph y -> Shape count (y ++ [KSpin 0 (count - 1) wc; FC (BRet n k 1)]).
+
+Definition start_stack (t n k : nat) : stack bc := snd (start t n k).
+
+Lemma start_shape count t n k : Shape count (start_stack t n k).
+Proof. destruct n; cbn; constructor. Qed.
+
+Lemma slots_none_same m m' :
+  slot_mutex m' = slot_mutex m -> slot_wait m' = slot_wait m -> slot_mpmc m' = slot_mpmc m ->
+  slots_none m -> slots_none m'.
+Proof. intros A B C H t. rewrite A, B, C. apply H. Qed.
+
+Lemma wake_slots m f : slots_none m -> slots_none (wake m f).
+Proof. intros H. unfold wake. destruct (blocked m f); eapply slots_none_same; eauto. Qed.
+Lemma wake_word m f : word (wake m f) = word m.
+Proof. unfold wake. destruct (blocked m f); reflexivity. Qed.
+
+(* do_maintenance's deferred slots are never used by the barrier *)
+Lemma run_slots_cases m t rest : slots_none m ->
+  exists m' e, (run_slots bc m t rest = (m', e, Resume :: rest) \/ run_slots bc m t rest = (m', e, Asleep :: rest))
+               /\ slots_none m' /\ word m' = word m.
+Proof.
+  intros H. unfold run_slots.
+  destruct (slot_sched m t) eqn:Es.
+  - set (m1 := wake (set_slot_sched m t false) t).
+    assert (H1 : slots_none m1).
+    { apply wake_slots. eapply slots_none_same; eauto. }
+    assert (W1 : word m1 = word m) by (unfold m1; rewrite wake_word; reflexivity).
+    destruct (H1 t) as (A & B & C). rewrite C, A, B. unfold sleep.
+    destruct (pend m1 t) eqn:Ep; do 2 eexists; (split; [|split]).
+    + right. reflexivity.
+    + eapply slots_none_same; eauto.
+    + exact W1.
+    + left. reflexivity.
+    + eapply slots_none_same; eauto.
+    + exact W1.
+  - destruct (H t) as (A & B & C). rewrite C, A, B. unfold sleep.
+    destruct (pend m t) eqn:Ep; do 2 eexists; (split; [|split]).
+    + right. reflexivity.
+    + eapply slots_none_same; eauto.
+    + reflexivity.
+    + left. reflexivity.
+    + eapply slots_none_same; eauto.
+    + reflexivity.
+Qed.
+
+Lemma ret_bret count m t v n k r :
+  ret bc (cret count) m t v [FC (BRet n k r)]
+  = (m, retev t k r ++ fst (start t n (S k)), start_stack t n (S k)).
+Proof. destruct n; reflexivity. Qed.
+
+(* what one step of a fiber does to its stack, to the slots and to the counter *)
+Definition step_ok (count : Z) (m : kmem) (t : nat) (sg : stack bc) (res : kmem * list Z * stack bc) : Prop :=
+  let '(m', _, sg') := res in
+  slots_none m' /\ Shape count sg' /\
+  ( (bot sg' = bot sg /\ word m' 0%nat = word m 0%nat)
+    \/ (exists n k, sg = [WFAdd 0 1 5; FC (BArrived n k)] /\ word m' 0%nat = word m 0%nat + 1 /\
+                    bot sg' = Some (BRet n k (if (word m 0%nat + 1) mod count =? 0 then 1 else 0)))
+    \/ (exists n, sg = [Start; FC (BNext n 1)] /\ word m' 0%nat = word m 0%nat /\ sg' = start_stack t n 1)
+    \/ (exists n k r, bot sg = Some (BRet n k r) /\ word m' 0%nat = word m 0%nat /\ sg' = start_stack t n (S k)) ).
+
+Ltac shape_tac :=
+  first [ apply start_shape
+        | solve [constructor; constructor]
+        | solve [apply (sh_wyield _ [_]); constructor]
+        | solve [apply (sh_wyield _ [_; _]); constructor]
+        | solve [apply (sh_kyield _ [_]); constructor]
+        | solve [apply (sh_kyield _ [_; _]); constructor] ].
+
+Ltac slots_tac H :=
+  first [ exact H
+        | solve [eapply slots_none_same; [| | |exact H]; reflexivity]
+        | solve [apply wake_slots; first [exact H | eapply slots_none_same; [| | |exact H]; reflexivity]] ].
+
+Ltac internal_tac H :=
+  split; [slots_tac H | split; [shape_tac | left; split; [reflexivity | try rewrite wake_word; reflexivity]]].
+
+Ltac return_tac H n k r :=
+  split; [slots_tac H | split; [shape_tac |
+    right; right; right; exists n, k, r; split; [reflexivity | split; [try rewrite wake_word; reflexivity | reflexivity]]]].
